@@ -1831,3 +1831,11 @@ CONTROLS['C13'] += [
       "        required_aggs = [aggs for aggs in required_aggs if aggs]\n    return required_aggs, forbidden_aggs\n",
       'R13.6'),
 ]
+
+CONTROLS['C14'] += [
+    M('c14-reserved-equals-total-gate-inverted', HI2,
+      "    if not version.matches((1, 26)):\n        op = operator.le\n", "    if version.matches((1, 26)):\n        op = operator.le\n", 'R14.8'),
+    B2('c14-benign-if-else-swapped', [(HI2,
+      "    if not version.matches((1, 26)):\n        op = operator.le\n        exc_class = exception.InvalidInventoryCapacity\n    else:\n        op = operator.lt\n        exc_class = exception.InvalidInventoryCapacityReservedCanBeTotal\n",
+      "    if version.matches((1, 26)):\n        op = operator.lt\n        exc_class = exception.InvalidInventoryCapacityReservedCanBeTotal\n    else:\n        op = operator.le\n        exc_class = exception.InvalidInventoryCapacity\n")]),
+]
